@@ -163,6 +163,15 @@ def run(tier):
         c = rng.choice(configs)
         p = rng.choice(progs)
         cases.append({"id": "p%d" % k, "mode": "process", "src": p, "label": "pipeline", "generator": c["generator"], "rules": c["rules"]})
+    # malformed escape sequences in every string form: an error VALUE, never a panic (finding F-C12-d)
+    bad_escapes = ["\\400", "\\256", "\\xZZ", "\\x1", "\\x", "\\u{110000}", "\\u{", "\\u{}", "\\u{D800", "\\u41", "\\q", "\\", "\\z\\400"]
+    forms = ["return '%s'", 'return "%s"', "return `%s`", "return `a{1}%s`", "return `%s{1}b`", "return `{`%s`}`", "local t = {['%s'] = 1}", "f'%s'", "f`%s`",
+             "type T = '%s'", "local x: `%s` = 1"]
+    for bi, be in enumerate(bad_escapes):
+        for fi, form in enumerate(forms):
+            src = form % be
+            cases.append({"id": "e%d_%d" % (bi, fi), "mode": "parse", "src": src, "label": "malformed-escape", "generator": "", "rules": []})
+            cases.append({"id": "e%d_%d_p" % (bi, fi), "mode": "process", "src": src, "label": "malformed-escape", "generator": "retain_lines", "rules": []})
     # the same kind of pairs with the program as a bundled MODULE
     for k in range(npairs // 6):
         c = rng.choice(configs)
